@@ -98,6 +98,7 @@ func c39GramName(vs []int) string {
 func runC39(c *vlib.Ctx) error {
 	nrand := argInt(c, "rand", 2000)
 	n := 0
+	seen := map[string]bool{} // draws already used (the trace module insists on distinct draws)
 	for k := 0; k <= 31; k++ {
 		for f := range c39Firsts {
 			for g := range c39Fills {
@@ -115,6 +116,7 @@ func runC39(c *vlib.Ctx) error {
 						draw[i] = c39Fills[g]
 					}
 				}
+				seen[string(draw)] = true
 				rec := c39Id(c, "pat", []int{k, f + 1, g + 1}, identifier.PrefixSynchronization, draw)
 				c.Emit(rec)
 				if n%211 == 7 {
@@ -132,7 +134,7 @@ func runC39(c *vlib.Ctx) error {
 		c.Emit(c39Id(c, "prefix", nil, p, one))
 	}
 	// boundary values of the 256-bit number: powers of 62 and their neighbours, all ones
-	seen := map[string]bool{string(make([]byte, 32)): true, string(one): true}
+	seen[string(make([]byte, 32))], seen[string(one)] = true, true
 	for i := 0; i < nrand; i++ {
 		draw := make([]byte, 32)
 		c.Rand.Read(draw)
